@@ -669,16 +669,13 @@ Proof.
     + apply FxB_Here. apply is_unset_false in El. eauto.
 Qed.
 
-(* full statement of infer_correct (kept as a Prop; the completeness half is not proved):
-   the mode recorded for every definition is its declarative mode *)
+(* full statement of infer_correct: the mode recorded for every definition is its declarative mode
+   (proved in proofs/InferCorrect.v, which adds the completeness half) *)
 Definition infer_correct_stmt : Prop :=
   forall D0 d, In d D0 -> HasMode D0 (td_body d) (td_mode (with_mode D0 d)).
 
-(* proved: whenever inferModality answers with a mode, a component fixes it; when it answers
-   Unset the recorded mode is the default.  Missing for the full statement: when the search
-   answers Unset no component fixes any mode (completeness of the depth-first search with its
-   used-labels cut-off: every reachable fixing component is reachable along a path that repeats
-   no name). *)
+(* soundness half: whenever inferModality answers with a mode, a component fixes it; when it
+   answers Unset the recorded mode is the default *)
 Theorem infer_correct_partial_proof D0 d :
   (infer_mode D0 (td_body d) <> Unset -> Fixes D0 (td_body d) (td_mode (with_mode D0 d))) /\
   (infer_mode D0 (td_body d) = Unset -> td_mode (with_mode D0 d) = Rep).
